@@ -26,7 +26,7 @@ impl = genrun.impl
 
 def gen(rng, tier):
     cases = []
-    ndefs = 14 if tier == "quick" else 400
+    ndefs = 28 if tier == "quick" else 400
     for _ in range(ndefs):
         doc = defgen.rnd_definition(rng)
         dobj = defgen.try_build(doc)
